@@ -1,7 +1,7 @@
 #!/bin/bash
 # usage: tools/mutant.sh <patch.diff> <ID> [<ID>...]  -- apply a seeded change to /repo, run quick checks, revert.
 set -u
-patch="$1"; shift
+patch="$(realpath "$1")"; shift
 cd /verif
 if ! git -C /repo diff --quiet; then echo "/repo has local modifications; refusing"; exit 2; fi
 if ! git -C /repo apply --check "$patch" 2>/dev/null; then
